@@ -172,11 +172,11 @@ class C05(Prop):
         return "scheduling of run(): sends / server lifetimes / outcomes differ from the proved model"
 
     # -- generators ---------------------------------------------------------
-    def run_case(self, rng, detail, lockstep, verbose=None, maxs=None, missing=False, nsuites=None):
+    def run_case(self, rng, detail, lockstep, verbose=None, maxs=None, missing=False, nsuites=None, tls=True):
         if detail == 0:
-            suites = gen_suites(rng, nsuites or rng.randint(1, 5), [1, 2, 3], True, [0, 0, 0, 0, 1, 2])
+            suites = gen_suites(rng, nsuites or rng.randint(1, 5), [1, 2, 3], tls, [0, 0, 0, 0, 1, 2])
         elif detail == 1:
-            suites = gen_suites(rng, nsuites or rng.randint(2, 5), [1, 2], True, [0, 0, 2, 2, 1], ncases=(1, 2))
+            suites = gen_suites(rng, nsuites or rng.randint(2, 5), [1, 2], tls, [0, 0, 2, 2, 1], ncases=(1, 2))
         else:
             suites = gen_suites(rng, nsuites or rng.randint(2, 4), [1, 2], False, [0, 0, 1, 1, 2], ncases=(1, 2))
         runp, skipp = gen_patterns(rng, suites, marked=detail != 0)
@@ -190,6 +190,12 @@ class C05(Prop):
 
     def generate(self, rng, tier):
         quick = tier == "quick"
+        # a few small runs without TLS first (no RSA key generation: cheap to shrink when something is wrong)
+        for maxs in (1, 2, 3):
+            yield self.run_case(rng, 0, lockstep=True, maxs=maxs, nsuites=4, tls=False)
+            yield self.run_case(rng, 0, lockstep=False, verbose=False, maxs=maxs, nsuites=4, tls=False)
+            yield self.run_case(rng, 1, lockstep=False, maxs=maxs, nsuites=3, tls=False)
+        yield self.run_case(rng, 2, lockstep=False, nsuites=2, tls=False)
         # request completion: every instance x reference-server flag on a fixed suite, then random
         for g in itertools.product([1, 2, 3], [1, 2], [0, 1], [0, 1]):
             for sref in (0, 1):
@@ -207,7 +213,7 @@ class C05(Prop):
             cert = rng.choice([b"", b"PEM", b"-----BEGIN CERTIFICATE-----"])
             yield ["c05.complete", g, rng.randint(0, 1), [host, rng.choice([0, 1, 8080, 65535, 4294967295]), cert], suite]
         # scheduling through run()
-        n0 = 110 if quick else 2500
+        n0 = 330 if quick else 2500
         for i in range(n0):
             yield self.run_case(rng, 0, lockstep=(i % 4 != 3))
         for maxs in (1, 2, 3, 8):
@@ -215,10 +221,58 @@ class C05(Prop):
             yield self.run_case(rng, 0, lockstep=False, verbose=False, maxs=maxs, nsuites=5)
         for _ in range(3 if quick else 40):
             yield self.run_case(rng, 0, lockstep=False, missing=True)
-        for _ in range(14 if quick else 300):
+        for _ in range(40 if quick else 300):
             yield self.run_case(rng, 1, lockstep=False)
-        for _ in range(5 if quick else 60):
+        for _ in range(12 if quick else 60):
             yield self.run_case(rng, 2, lockstep=False)
+
+    # -- thorough tier: free-running schedules under the race detector, several GOMAXPROCS ----
+    def extra(self, ctx):
+        if ctx.tier != "thorough":
+            return []
+        import random
+        rng = random.Random(ctx.seed * 7919 + 5)
+        cases = []
+        for i in range(120):
+            cases.append(self.run_case(rng, 0, lockstep=False, verbose=bool(i % 2)))
+        for i in range(20):
+            cases.append(self.run_case(rng, 1, lockstep=False))
+        for i in range(6):
+            cases.append(self.run_case(rng, 2, lockstep=False))
+        path = os.path.join(ctx.work, "race.cases")
+        with open(path, "w") as f:
+            for i, c in enumerate(cases):
+                f.write(core.sx([c[0], i] + list(c[1:])) + "\n")
+        mo = os.path.join(ctx.work, "race.model.out")
+        core.run_model(self, path, mo)
+        mres = core.read_results(mo)
+        binp = core.go_test_bin(self, self.packages["cc"], race=True)
+        vs = []
+        for procs in (1, 4, 16):
+            out = os.path.join(ctx.work, "race.%d.go.out" % procs)
+            if os.path.exists(out):
+                os.remove(out)
+            rc, log, dt = core.run_cmd([binp, "-test.run", "^TestVerifEval$", "-test.count=1", "-test.timeout", "1500s"],
+                                       cwd=os.path.join(core.REPO, self.packages["cc"]), timeout=1600, check=False,
+                                       extra_env={"VERIF_CASES": path, "VERIF_OUT": out, "GOMAXPROCS": str(procs),
+                                                  "GORACE": "halt_on_error=0"})
+            ctx.notes["t_race_gomaxprocs_%d_s" % procs] = round(dt, 1)
+            if "DATA RACE" in log:
+                i = log.index("DATA RACE")
+                vs.append(core.Violation("free-running run() under -race, GOMAXPROCS=%d: data race" % procs,
+                                         "; C05 race run: data race\n; %s\n" % log[max(0, i - 200):i + 3000].replace("\n", "\n; "),
+                                         "no-failing-input-found"))
+                continue
+            if not os.path.exists(out):
+                raise core.HarnessError("race run failed (rc=%d):\n%s" % (rc, log[-4000:]))
+            gres = core.read_results(out)
+            bad = [i for i in range(len(cases)) if gres.get(str(i)) != mres.get(str(i))]
+            ctx.notes["race_gomaxprocs_%d" % procs] = "%d cases, %d disagreements" % (len(cases), len(bad))
+            for i in bad[:2]:
+                body = "; C05 free-running under -race, GOMAXPROCS=%d\n; impl : %s\n; model: %s\n%s\n" % (
+                    procs, gres.get(str(i)), mres.get(str(i)), core.sx([cases[i][0], 0] + list(cases[i][1:])))
+                vs.append(core.Violation("GOMAXPROCS=%d: disagreement on %s" % (procs, core.sx(cases[i])[:200]), body))
+        return vs
 
 
 PROP = C05()
